@@ -106,7 +106,7 @@ def generate(rng, index, tier):
                 ops.append({'k': 'one', 'name': 'TRACE_DATA_THREAD_TERMINATE_PID', 'q': 0, 'a': [61000 + rng.randrange(5), rng.word(), 0, 0]})
             elif r < 0.9:
                 target = rng.pick(tids)
-                nfr = rng.randint(1, 5)
+                nfr = rng.pick([1, 2, 3, 4, 5, 0])        # (0: a stack header that announces no frames)
                 ops.append(worlds.op_sample(rng, flags=rng.pick([9, 9, 1, 8, 0xa, 0x108, 0x208, 0x1008, 0x3fff, 0x2, 0x100]), thd=(rng.pick([pids[target], 61000 + rng.randrange(5), (1 << 64) - 1, 0xffffffff, 0]), target),
                                             uhdr=(1, nfr), udata=[[rng.randrange(1, 1 << 40) for _ in range(4)] for _ in range(2)]))
                 if rng.chance(0.15):
@@ -142,7 +142,8 @@ def generate(rng, index, tier):
                     ev_['tid'] = t_
                     ev_['pid'] = rng.pick([1, 77, 4242, pids.get(t_, 5)])
     names = {0: ''} if zero_slot else {}
-    w['tmap'] = [[t, pids[t], names.setdefault(pids[t], rng.ident(2, 12)), rng.pick(['', '', 'ff41', '726f787900', '00414243'])] for t in declared]
+    w['tmap'] = [[t, pids[t], names.setdefault(pids[t], rng.ident(2, 12) if rng.chance(0.9) else rng.pick([' ', '']) + rng.ident(2, 9) + rng.pick([' ', '  ', '\t'])),
+                  rng.pick(['', '', 'ff41', '726f787900', '00414243'])] for t in declared]
     if rng.chance(0.3):
         w['tmap'].append([rng.randrange(5000, 6000), 62000, rng.ident(2, 8), ''])
     if version == 2:
